@@ -430,7 +430,11 @@ class TDMProgram(Program):
 
         if self.space_unrolled_circuit is not None:
             if self._num_added_subsystems > 0:
-                self._delete_subsystems(self.register[-self._num_added_subsystems :])
+                # remove the added subsystems altogether (deleted indices are never reused, which
+                # would leave every later space-unrolling with indices beyond the register)
+                for r in self.register[-self._num_added_subsystems :]:
+                    del self.reg_refs[r.ind]
+                    self.unused_indices.discard(r.ind)
                 self.init_num_subsystems -= self._num_added_subsystems
                 self._num_added_subsystems = 0
 
